@@ -142,6 +142,12 @@ func genOptInput(t *rapid.T, kind string) string {
 	}
 	n := rapid.IntRange(0, 14).Draw(t, "n")
 	var sb strings.Builder
+	if rapid.IntRange(0, 24).Draw(t, "run") == 0 {
+		// a long run of tokens that an option skips (dozens to hundreds inside one NextToken call)
+		unit := rapid.SampledFrom([]string{"😀", "\uffff", "/* c */", "/**/ ", "# c\n", "#\n ", " 😀", "\x01😀"}).Draw(t, "rununit")
+		sb.WriteString(rapid.SampledFrom([]string{"", "a ", "1"}).Draw(t, "runhead"))
+		sb.WriteString(strings.Repeat(unit, rapid.IntRange(30, 300).Draw(t, "runlen")))
+	}
 	for i := 0; i < n; i++ {
 		if rapid.IntRange(0, 9).Draw(t, "k") == 0 {
 			sb.WriteRune(genRune(t))
